@@ -1174,7 +1174,66 @@ func (e *Engine) storeTargets(addr ssa.Value, seen map[*ssa.Alloc]bool, m *mods)
 }
 
 func (e *Engine) allocEscapes(a *ssa.Alloc) bool {
-	return addrEscapes(a, a.Referrers(), 0)
+	if !addrEscapes(a, a.Referrers(), 0) {
+		return false
+	}
+	// a variable that is assigned once and then only captured by closures that merely read it cannot be
+	// changed by anyone: it keeps its value across calls like any other local
+	return !readOnlyCapture(a)
+}
+
+// readOnlyCapture: the only way the address of a leaves the function is as a closure binding, every such
+// closure only loads its free variable, and a is stored to exactly once (its initialisation).
+func readOnlyCapture(a *ssa.Alloc) bool {
+	if a.Referrers() == nil {
+		return false
+	}
+	if _, isStruct := deref(a.Type()).Underlying().(*types.Struct); isStruct {
+		return false
+	}
+	stores, captured := 0, false
+	for _, r := range *a.Referrers() {
+		switch x := r.(type) {
+		case *ssa.Store:
+			if x.Val == ssa.Value(a) || x.Addr != ssa.Value(a) {
+				return false
+			}
+			stores++
+		case *ssa.UnOp:
+			if x.Op != token.MUL {
+				return false
+			}
+		case *ssa.DebugRef:
+		case *ssa.MakeClosure:
+			fn, ok := x.Fn.(*ssa.Function)
+			if !ok {
+				return false
+			}
+			for i, b := range x.Bindings {
+				if b != ssa.Value(a) {
+					continue
+				}
+				if i >= len(fn.FreeVars) || fn.FreeVars[i].Referrers() == nil {
+					return false
+				}
+				for _, fr := range *fn.FreeVars[i].Referrers() {
+					switch y := fr.(type) {
+					case *ssa.UnOp:
+						if y.Op != token.MUL {
+							return false
+						}
+					case *ssa.DebugRef:
+					default:
+						return false // stored to, or passed on, inside the closure
+					}
+				}
+				captured = true
+			}
+		default:
+			return false
+		}
+	}
+	return captured && stores == 1
 }
 
 // addrEscapes: may the address value v (an Alloc or an address derived from it) become visible to
